@@ -552,22 +552,28 @@ impl IndexTable {
 
 		let map = map.as_ref().unwrap();
 		let offset = META_SIZE + index as usize * CHUNK_LEN;
-		// Nasty mutable pointer cast. We do ensure that all chunks that are being written are
-		// accessed through the overlay in other threads.
+		// Nasty mutable pointer cast. Chunks that are being written are accessed through the
+		// overlay in other threads - but for a reader that looked into the overlay before the
+		// record was logged and gets to the mapped page only now. It copes with an entry that
+		// changes as a whole, so every entry is put in place with a single store (the bytes of the
+		// log are not read into the page: that copy may be made in two pieces).
 		let ptr: *mut u8 = map.as_ptr() as *mut u8;
-		let chunk: &mut [u8] = unsafe {
-			let ptr = ptr.add(offset);
-			std::slice::from_raw_parts_mut(ptr, CHUNK_LEN)
-		};
+		let chunk: *mut u8 = unsafe { ptr.add(offset) };
 		let mut mask_buf = [0u8; 8];
 		log.read(&mut mask_buf)?;
 		let mut mask = u64::from_le_bytes(mask_buf);
 		while mask != 0 {
 			let i = mask.trailing_zeros();
 			mask &= !(1 << i);
-			log.read(try_io!(Ok(
-				&mut chunk[i as usize * ENTRY_BYTES..(i as usize + 1) * ENTRY_BYTES]
-			)))?;
+			let mut entry = [0u8; ENTRY_BYTES];
+			log.read(try_io!(Ok(&mut entry)))?;
+			// The mapping is page aligned, `META_SIZE` and the chunk size are multiples of the
+			// entry size.
+			unsafe {
+				let slot = chunk.add(i as usize * ENTRY_BYTES) as *mut u64;
+				std::sync::atomic::AtomicU64::from_ptr(slot)
+					.store(u64::from_ne_bytes(entry), std::sync::atomic::Ordering::Relaxed);
+			}
 		}
 		log::trace!(target: "parity-db", "{}: Enacted chunk {}", self.id, index);
 		Ok(())
